@@ -10,7 +10,7 @@ PENDING = "check not built yet in this round (design in DESIGN.md section 3); no
 NOT_APPLICABLE = {}
 HOOK_COMMITS = []
 # checks that are finished, reviewed and run clean on the unchanged tree (a builder's work in progress is not claimed)
-READY = {"C01", "C02", "C03", "C04", "C05", "C20", "C06", "C07", "C08", "C09", "C10", "C11", "C12", "C13", "C14", "C15", "C16", "C18", "C19"}
+READY = {"C01", "C02", "C03", "C04", "C05", "C20", "C06", "C07", "C08", "C09", "C10", "C11", "C12", "C13", "C14", "C15", "C16", "C17", "C18", "C19"}
 
 
 def tracked():
